@@ -50,8 +50,28 @@ def gen_case(rng, big=False):
     for n, pr, sp in defs:
         g += '%s%s: %s\n' % (n, ('.%d' % pr) if pr else '', sp)
     if ign:
-        g += 'WS: /[ \\t]+/\n%ignore WS\n'
+        r = rng.random()
+        if r < 0.5 or big:
+            g += 'WS: /[ \\t]+/\n%ignore WS\n'
+        else:
+            # ignored terminals that can match several times in a row, overlap other terminals, are strings a regexp terminal matches in full (keyword
+            # exception on an ignored terminal), or are regexps matching a string terminal in full; sometimes two of them
+            pool = ['WS: /[ \\t]/', 'WS: " "', 'WS: / |;/', 'COM: /#[a-z]*;?/', 'COM: /#[^;]*;/', 'WS: /\\s/', 'SKIP: "if"', 'SKIP: "ab"', 'SKIP: /[a-c]/', 'WS: /[ ;]+?/', 'SKIP: "x"']
+            for d in rng.sample(pool, rng.choice([1, 1, 2])):
+                n_ = d.split(':')[0]
+                if ('\n' + n_ + ':') in ('\n' + g) or ('\n' + n_ + '.') in ('\n' + g):
+                    continue
+                pr_ = rng.choice(['', '', '', '.1', '.2'])
+                g += '%s%s:%s\n%%ignore %s\n' % (n_, pr_, d.split(':', 1)[1], n_)
+            if rng.random() < 0.5:
+                # a higher-precedence terminal that starts where an ignored match may end
+                g += rng.choice(['DOC.2: /##[a-z]*;/\n', 'TWO: "  "\n', 'SEMI.1: ";"\n', 'HASH: "#"\n', 'NL.2: "\\n"\n'])
+                g = g.replace('start: (', 'start: (%s | ' % g.rstrip('\n').split('\n')[-1].split(':')[0].split('.')[0], 1) if g.startswith('start: (') else g
     alpha = ALPHA + (['k1', 'k12', 'k100', 'k7 ', 'kk'] if big else [])
+    if 'COM:' in g or 'COM.' in g or 'DOC' in g or 'HASH' in g:
+        alpha = alpha + ['#', '#ab;', '##x;', '#;', ';', '# a;']
+    if 'NL.2' in g or '\\s/' in g:
+        alpha = alpha + ['\n', ' \n', '\n\n']
     texts = [''.join(rng.choice(alpha) for _ in range(rng.randint(0, 9))) for _ in range(3)]
     return g, texts
 
@@ -203,6 +223,19 @@ def _case(args):
 
 
 def run(ctx, res):
+    for f in ctx['known']:
+        if f['id'] == 'F30' and f['status'] == 'fixed':
+            from lark import Lark
+            from lark.exceptions import UnexpectedInput
+            w = f['witness']
+            for gk, tk, ek in (('grammar', 'text', 'expected_types'), ('grammar2', 'text2', 'expected_types2')):
+                for lexer in ('basic', 'contextual'):
+                    try:
+                        got = [t.type for t in Lark(w[gk], parser='lalr', lexer=lexer).parse(w[tk]).children]
+                    except UnexpectedInput as e:
+                        got = type(e).__name__
+                    if got != w[ek]:
+                        res.violation('regression of fixed finding F30: ' + f['what'], {'grammar': w[gk], 'text': w[tk], 'lexer': lexer, 'tokens': got, 'expected': w[ek]})
     for f in ctx['known']:
         if f['id'] == 'F28' and f['status'] == 'open':
             from lark import Lark
